@@ -441,6 +441,26 @@ func (w *World) TakeHeld(k int) *Message {
 	return m
 }
 
+// TakeHeldKind removes and returns the k-th held message of the given kind ("topic"/"direct"), counted
+// from the most recent one.
+func (w *World) TakeHeldKind(kind string, k int) *Message {
+	w.mu.Lock()
+	defer w.mu.Unlock()
+	var idx []int
+	for i := len(w.held) - 1; i >= 0; i-- {
+		if w.held[i].Kind == kind {
+			idx = append(idx, i)
+		}
+	}
+	if len(idx) == 0 {
+		return nil
+	}
+	i := idx[k%len(idx)]
+	m := w.held[i]
+	w.held = append(w.held[:i:i], w.held[i+1:]...)
+	return m
+}
+
 // Deliver hands m to its destination now (if the destination still listens
 // and the link is up; otherwise it is lost, as on a real network).
 func (w *World) Deliver(m *Message) bool { return w.deliver(m) }
